@@ -6,7 +6,8 @@ C13 — `ClientServerStream.Close(err)` step by step (pkg/wrap/stream.go).
 that a client goroutine parked in `RecvMsg` / `Header()` can observe one by one:
 
 ```
-_ = (&serverStream{s}).SendHeader(nil)   -- flush     : join nothing, close the latch headerC (if still open)
+_ = (&serverStream{s}).SendHeader(nil)   -- flush     : join nothing, close the latch headerC (if still open and
+                                         --             the call's context has not ended: 1e9d1bd)
 s.headerM.Lock(); s.closeErr = err; …    -- recordErr : the error the client is to be given
 close(s.serverSend)                      -- closeChan : RecvMsg's `case _, ok := <-serverSend` fires with !ok
 s.closed()                               -- cancelCtx : the stream context is done
@@ -34,7 +35,7 @@ inductive CloseStep where
   deriving DecidableEq, Repr
 
 def Fine.step (f : Fine) : CloseStep → Fine
-  | .flush => if f.headerC then f else { f with headerC := true }
+  | .flush => if f.ctxErr.isSome then f else if f.headerC then f else { f with headerC := true }
   | .recordErr err => { f with closeErr := some err }
   | .closeChan => { f with sendClosed := true }
   | .cancelCtx => { f with ctxErr := f.ctxErr <|> some .cancel }   -- context.Canceled unless already done
